@@ -12,7 +12,30 @@ pub const ID_MULT: &str = "C06-multiply-accepts-min-int";
 pub const ID_GLUE_ADD: &str = "C06-glue-advance-zero-stretch-order";
 pub const ID_INTERNAL_DIMEN: &str = "C06-internal-dimen-not-range-checked";
 pub const ID_CLAMP_SIGN: &str = "C06-internal-unit-overflow-clamp-sign";
-pub const DEVIATION_IDS: [&str; 4] = [ID_MULT, ID_GLUE_ADD, ID_INTERNAL_DIMEN, ID_CLAMP_SIGN];
+pub const ID_FIL_CARRY: &str = "C06-fil-fraction-carry-unchecked";
+pub const DEVIATION_IDS: [&str; 5] = [ID_MULT, ID_GLUE_ADD, ID_INTERNAL_DIMEN, ID_CLAMP_SIGN, ID_FIL_CARRY];
+
+/// Panic signatures for this property: `panic@<repo file>::* [message]`.
+///
+/// vcore attributes a panic to the innermost backtrace frame located in /repo and caches that per
+/// panic site. Here the same sites are reached both through the VM and through direct calls that
+/// get inlined into the harness (no repo frame at all), and the overflow panics of `abs`/`neg`
+/// share one library location between several repo callers - the attribution would depend on
+/// which came first in a worker. The file of the panic location itself (when it is a repo file,
+/// else the file vcore found) plus the message is stable; the function is dropped.
+pub fn report_panic(obs: &mut Obs, p: &vcore::PanicInfo, detail: Value) {
+    let mut q = p.clone();
+    if !p.budget {
+        if let Some(pos) = p.file.find("/repo/crates/") {
+            q.repo_file = p.file[pos + 6..].to_string();
+            q.in_harness = false;
+        }
+        if !q.repo_file.is_empty() {
+            q.repo_function = "*".to_string();
+        }
+    }
+    obs.repo_panic(&q, detail);
+}
 
 pub struct Runner {
     vm: Option<Box<vm::VM<VState>>>,
@@ -87,6 +110,10 @@ pub fn read_regs(vm: &vm::VM<VState>) -> m::Regs {
         r.skip[i] = glue_of(&s[i]);
     }
     r
+}
+
+pub fn canonical_regs(r: &m::Regs) -> m::Regs {
+    canonical(r)
 }
 
 fn canonical(r: &m::Regs) -> m::Regs {
@@ -187,7 +214,7 @@ impl Runner {
                 false
             }
             Err(p) => {
-                obs.repo_panic(&p, json!({"while": "building the VM"}));
+                report_panic(obs, &p, json!({"while": "building the VM"}));
                 false
             }
         }
@@ -214,7 +241,7 @@ impl Runner {
                 false
             }
             Err(p) => {
-                obs.repo_panic(&p, json!({"source": source}));
+                report_panic(obs, &p, json!({"source": source}));
                 self.vm = None;
                 false
             }
@@ -251,7 +278,7 @@ impl Runner {
                     obs.inconclusive("step budget exceeded while running a statement");
                 } else {
                     obs.count("vm:panics");
-                    obs.repo_panic(&p, d);
+                    report_panic(obs, &p, d);
                 }
                 self.vm = None;
                 Err(())
@@ -282,6 +309,14 @@ impl Runner {
                 })
             }
         }
+    }
+
+    /// Fixed reproducers without a deviation model: execute and hand back the observation.
+    pub fn run_special(&mut self, obs: &mut Obs, text: &str, target: Target) -> Option<Observed> {
+        if !self.ensure_vm(obs) {
+            return None;
+        }
+        self.execute(obs, text, target, &json!({"statement": text})).ok()
     }
 
     /// Check one statement (text without the final `\relax`). Returns false if the VM had to be
@@ -376,7 +411,7 @@ impl Runner {
             return observed.fatal.is_none();
         }
         // ---- deviation models: smallest set of switched rules that explains the observation
-        let mut masks: Vec<u32> = (1..16).collect();
+        let mut masks: Vec<u32> = (1..(1 << m::N_DEVIATIONS)).collect();
         masks.sort_by_key(|m| m.count_ones());
         for mask in masks {
             let Ok(dev) = run_model(m::Deviations::from_mask(mask)) else {
